@@ -418,10 +418,11 @@ Proof.
       repeat split; auto.
       * intro i. rewrite V, count_res_cons. fold p.
         destruct (p =? i) eqn:Ei; [apply Z.eqb_eq in Ei | auto].
-        subst i. destruct (getv s p) as [v|] eqn:Hv; simpl; auto.
+        subst i. destruct (getv s p) as [v|] eqn:Hv; cbn [option_map]; auto.
         assert (P : punishable v = false).
         { destruct (punishable v) eqn:P; auto. exfalso. apply NG. eapply punishable_gpass; eauto. }
-        rewrite !punish_n_not_punishable; auto.
+        rewrite (punish_n_not_punishable _ _ (count_res c p t) v P).
+        rewrite (punish_n_not_punishable _ _ (S (count_res c p t)) v P). reflexivity.
       * intro Hn. apply X in Hn. destruct Hn as [b [Hb Gb]]. exists b. split; [right|]; auto.
       * intros [b [[Hb|Hb] Gb]]; [subst b; contradiction|]. apply X. eauto.
 Qed.
